@@ -49,6 +49,10 @@ def run_mutant(m, tier):
             what = [ln for ln in p.stdout.splitlines() if ln.startswith('  what:')][:1]
             if what:
                 out.append(what[0][:160])
+            if fired and os.environ.get('KV_REPLAY_TEST'):
+                rp = [ln.split('replay=')[1].strip() for ln in p.stdout.splitlines() if ln.startswith('VIOLATION')][0]
+                r = subprocess.run(['/venv/bin/python', '-m', 'kverif.run', pid, '--replay', rp], cwd=VERIF, env=env, stdout=subprocess.PIPE, stderr=subprocess.STDOUT, text=True)
+                out.append('REPLAY:' + ('reproduced' if r.returncode == 1 else 'NOT-REPRODUCED'))
         return status, ' '.join(out)
     finally:
         shutil.rmtree(tmp, ignore_errors=True)
